@@ -35,7 +35,7 @@ Ltac lor_at m :=
   | |- context [Z.lor ?x ?y] =>
     lazymatch x with context [Z.lor] => fail | _ => idtac end;
     lazymatch y with context [Z.lor] => fail | _ => idtac end;
-    rewrite (lor_disjoint m x y) by lia
+    first [ rewrite (lor_disjoint m x y) by lia | rewrite (Z.lor_comm x y), (lor_disjoint m y x) by lia ]
   end.
 
 Ltac lor_auto :=
@@ -213,13 +213,140 @@ Proof.
     destruct ((0 <=? _) && (_ <? 4294967296)) eqn:E; [lia | reflexivity].
 Qed.
 
-Lemma src_btp_decode bs : (4 <= length bs)%nat ->
-  Some [fst (BTPA_decode bs); snd (BTPA_decode bs)] = dec_btp bs /\ BTPB_decode bs = BTPA_decode bs.
+(* ---- concatenation of big-endian chunks ------------------------------------------------------------------------------- *)
+Lemma rev_repeat8 n : rev (repeat 8 n) = repeat 8 n.
 Proof.
-  intros Hl. split; [|reflexivity].
-  destruct bs as [|b0 [|b1 [|b2 [|b3 rest]]]]; cbn [length] in Hl; try lia.
-  unfold BTPA_decode, dec_btp, dec_fields, btp_ws. change (hdr_bytes [16; 16]) with 4%nat.
-  replace (length (b0 :: b1 :: b2 :: b3 :: rest) <? 4)%nat with false by (symmetry; apply Nat.ltb_ge; cbn [length]; lia).
-  cbn [firstn skipn fst snd]. f_equal. unfold unpack, of_bytes, pack. cbn [rev app unpack_rev map fold_left].
-  unfold pack_step. cbn [fst snd].
-Abort.
+  induction n as [|n IH]; [reflexivity|]. cbn [repeat rev]. rewrite IH. clear IH.
+  induction n as [|n IH]; [reflexivity|]. cbn [repeat app]. rewrite IH. reflexivity.
+Qed.
+
+Lemma bytes_rev_app (b a : nat) x y : 0 <= y < 2 ^ (8 * Z.of_nat b) ->
+  unpack_rev (repeat 8 (b + a)) (x * 2 ^ (8 * Z.of_nat b) + y) = unpack_rev (repeat 8 b) y ++ unpack_rev (repeat 8 a) x.
+Proof.
+  revert y. induction b as [|b IH]; intros y Hy.
+  - change (8 * Z.of_nat 0) with 0 in *. change (2 ^ 0) with 1 in *. cbn [plus repeat unpack_rev app].
+    replace (x * 1 + y) with x by lia. reflexivity.
+  - cbn [plus repeat unpack_rev app].
+    replace (8 * Z.of_nat (S b)) with (8 * Z.of_nat b + 8) in * by lia.
+    rewrite Z.pow_add_r in * by lia. change (2 ^ 8) with 256 in *.
+    assert (Hp : 0 < 2 ^ (8 * Z.of_nat b)) by (apply Z.pow_pos_nonneg; lia).
+    set (P := 2 ^ (8 * Z.of_nat b)) in *.
+    replace (x * (P * 256) + y) with ((x * P) * 256 + y) by ring.
+    f_equal.
+    + rewrite Z.add_comm, Z.mod_add by lia. reflexivity.
+    + rewrite Z.add_comm, Z.div_add by lia. rewrite Z.add_comm. apply IH.
+      split; [apply Z.div_pos; lia|]. apply Z.div_lt_upper_bound; lia.
+Qed.
+
+Lemma to_bytes_app (a b : nat) x y : 0 <= y < 2 ^ (8 * Z.of_nat b) ->
+  to_bytes a x ++ to_bytes b y = to_bytes (a + b) (x * 2 ^ (8 * Z.of_nat b) + y).
+Proof.
+  intros Hy. unfold to_bytes, unpack. rewrite !rev_repeat8. rewrite (Nat.add_comm a b).
+  rewrite bytes_rev_app by exact Hy. rewrite rev_app_distr. reflexivity.
+Qed.
+
+Ltac p8 :=
+  repeat match goal with
+         | |- context [2 ^ (8 * Z.of_nat ?n)] =>
+           let v := eval vm_compute in (2 ^ (8 * Z.of_nat n)) in change (2 ^ (8 * Z.of_nat n)) with v
+         end.
+
+(* ---- extended headers: sequence number, reserved, [position vectors as their octets], area ---------------------------- *)
+Lemma sn_octets sn res : 0 <= sn < 65536 -> 0 <= res < 65536 ->
+  to_bytes 2 sn ++ to_bytes 2 res = enc_fields sn_ws [sn; res].
+Proof.
+  intros H1 H2. rewrite (to_bytes_app 2 2) by (p8; lia).
+  unfold enc_fields, sn_ws, pack. change (hdr_bytes [16; 16]) with 4%nat. cbn [combine fold_left]. unfold pack_step.
+  cbn [fst snd plus]. f_equal; try (p8; pow2; lia).
+Qed.
+
+Ltac range_guard := match goal with |- context [if ?c then _ else _] => destruct c eqn:?; [| exfalso; lia] end.
+
+Lemma src_tsb_encode sn res so : 0 <= sn < 65536 -> 0 <= res < 65536 ->
+  TSB_encode sn res so = Some (enc_fields sn_ws [sn; res] ++ so).
+Proof. intros H1 H2. unfold TSB_encode. pow2. repeat range_guard. rewrite sn_octets by assumption. reflexivity. Qed.
+
+Lemma src_guc_encode sn res so de : 0 <= sn < 65536 -> 0 <= res < 65536 ->
+  GUC_encode sn res so de = Some (enc_fields sn_ws [sn; res] ++ so ++ de) /\ LSRep_encode sn res so de = GUC_encode sn res so de.
+Proof.
+  intros H1 H2. split; [|reflexivity]. unfold GUC_encode. pow2. repeat range_guard.
+  rewrite sn_octets by assumption. rewrite <- app_assoc. reflexivity.
+Qed.
+
+Lemma src_lsreq_encode sn res so m st x : 0 <= sn < 65536 -> 0 <= res < 65536 ->
+  0 <= m < 2 -> 0 <= st < 32 -> 0 <= x < 2 ^ 48 ->
+  LSReq_encode sn res so (pack (combine gnaddr_ws (raw_gnaddr [m; st; x])))
+  = Some (enc_fields sn_ws [sn; res] ++ so ++ enc_gnaddr [m; st; x]).
+Proof.
+  intros H1 H2 Hm Hst Hx. pose proof (gnaddr_range m st x Hm Hst Hx) as Hg. unfold LSReq_encode.
+  repeat range_guard. rewrite sn_octets by assumption. rewrite <- app_assoc. reflexivity.
+Qed.
+
+Lemma area_octets lat lon a b angle res2 :
+  - 2 ^ 31 <= lat < 2 ^ 31 -> - 2 ^ 31 <= lon < 2 ^ 31 -> 0 <= a < 65536 -> 0 <= b < 65536 -> 0 <= angle < 65536 ->
+  0 <= res2 < 65536 ->
+  to_bytes 4 (to_unsigned 32 lat) ++ to_bytes 4 (to_unsigned 32 lon) ++ to_bytes 2 a ++ to_bytes 2 b ++ to_bytes 2 angle
+    ++ to_bytes 2 res2 = enc_fields area_ws (raw_area [lat; lon; a; b; angle; res2]).
+Proof.
+  intros. unfold to_unsigned.
+  pose proof (Z.mod_pos_bound lat (2 ^ 32) ltac:(lia)). pose proof (Z.mod_pos_bound lon (2 ^ 32) ltac:(lia)).
+  rewrite (to_bytes_app 2 2 angle res2) by (p8; lia).
+  rewrite (to_bytes_app 2 4 b) by (p8; lia).
+  rewrite (to_bytes_app 2 6 a) by (p8; lia).
+  rewrite (to_bytes_app 4 8) by (p8; pow2; lia).
+  rewrite (to_bytes_app 4 12) by (p8; pow2; lia).
+  unfold enc_fields, area_ws, raw_area, to_unsigned, arg, pack. change (hdr_bytes [32; 32; 16; 16; 16; 16]) with 16%nat.
+  cbn [nth combine fold_left plus]. unfold pack_step. cbn [fst snd]. f_equal.
+  p8. pow2. generalize dependent (lat mod 4294967296). generalize dependent (lon mod 4294967296). intros. lia.
+Qed.
+
+Lemma src_gbc_encode sn res so lat lon a b angle res2 : 0 <= sn < 65536 -> 0 <= res < 65536 ->
+  - 2 ^ 31 <= lat < 2 ^ 31 -> - 2 ^ 31 <= lon < 2 ^ 31 -> 0 <= a < 65536 -> 0 <= b < 65536 -> 0 <= angle < 65536 ->
+  0 <= res2 < 65536 ->
+  GBC_encode sn res so lat lon a b angle res2
+  = Some (enc_fields sn_ws [sn; res] ++ so ++ enc_fields area_ws (raw_area [lat; lon; a; b; angle; res2])).
+Proof.
+  intros. unfold GBC_encode. repeat range_guard.
+  rewrite <- area_octets by assumption. rewrite <- sn_octets by assumption.
+  rewrite <- !app_assoc. reflexivity.
+Qed.
+
+(* a coordinate outside 32-bit two's complement cannot be encoded: the encoder raises *)
+Lemma src_gbc_encode_overflow sn res so lat lon a b angle res2 : ~ (- 2 ^ 31 <= lat < 2 ^ 31) ->
+  GBC_encode sn res so lat lon a b angle res2 = None.
+Proof.
+  intros Hl. unfold GBC_encode.
+  repeat match goal with |- context [if ?c then _ else _] => destruct c eqn:?; [| reflexivity] end. exfalso. lia.
+Qed.
+
+(* ---- decoders (integer level): the fields the source extracts are the model's unpack of the layout table --------------- *)
+Ltac masks :=
+  change 15 with (2 ^ 4 - 1); change 255 with (2 ^ 8 - 1); change 63 with (2 ^ 6 - 1); change 3 with (2 ^ 2 - 1);
+  change 65535 with (2 ^ 16 - 1); rewrite ?land_mask by lia.
+
+Lemma src_basic_decode x : 0 <= x < 2 ^ 32 ->
+  BasicHeader_decode_from_int x
+  = option_map (fun r => (arg 0 r, arg 1 r, arg 2 r, (arg 3 r, arg 4 r), arg 5 r)) (view_basic (unpack basic_ws x)).
+Proof.
+  intros Hx. unfold BasicHeader_decode_from_int, view_basic, unpack, basic_ws, enum_mem_BasicNH, enum_mem_LTbase.
+  cbn [rev app unpack_rev arg nth].
+  rewrite !Z.shiftr_div_pow2 by lia.
+  replace (Z.land (x / 2 ^ 28) 15) with (x / 2 ^ 8 / 2 ^ 2 / 2 ^ 6 / 2 ^ 8 / 2 ^ 4 mod 2 ^ 4)
+    by (change 15 with (2 ^ 4 - 1); rewrite land_mask by lia; pow2; lia).
+  replace (Z.land (x / 2 ^ 24) 15) with (x / 2 ^ 8 / 2 ^ 2 / 2 ^ 6 / 2 ^ 8 mod 2 ^ 4)
+    by (change 15 with (2 ^ 4 - 1); rewrite land_mask by lia; pow2; lia).
+  replace (Z.land (x / 2 ^ 16) 255) with (x / 2 ^ 8 / 2 ^ 2 / 2 ^ 6 mod 2 ^ 8)
+    by (change 255 with (2 ^ 8 - 1); rewrite land_mask by lia; pow2; lia).
+  replace (Z.land (x / 2 ^ 10) 63) with (x / 2 ^ 8 / 2 ^ 2 mod 2 ^ 6)
+    by (change 63 with (2 ^ 6 - 1); rewrite land_mask by lia; pow2; lia).
+  replace (Z.land (x / 2 ^ 8) 3) with (x / 2 ^ 8 mod 2 ^ 2)
+    by (change 3 with (2 ^ 2 - 1); rewrite land_mask by lia; pow2; lia).
+  replace (Z.land x 255) with (x mod 2 ^ 8) by (change 255 with (2 ^ 8 - 1); rewrite land_mask by lia; reflexivity).
+  set (nh := x / 2 ^ 8 / 2 ^ 2 / 2 ^ 6 / 2 ^ 8 mod 2 ^ 4). set (b := x / 2 ^ 8 mod 2 ^ 2).
+  assert (Hnh : 0 <= nh < 16) by (subst nh; apply Z.mod_pos_bound; lia).
+  assert (Hb : 0 <= b < 4) by (subst b; apply Z.mod_pos_bound; lia).
+  destruct (nh <=? 2) eqn:E1.
+  - replace ((nh =? 0) || (nh =? 1) || (nh =? 2)) with true by lia.
+    replace ((b =? 0) || (b =? 1) || (b =? 2) || (b =? 3)) with true by lia. reflexivity.
+  - replace ((nh =? 0) || (nh =? 1) || (nh =? 2)) with false by lia. reflexivity.
+Qed.
